@@ -429,7 +429,11 @@ func (x *Explorer) accessField(st *State, at ssa.Instruction, base ssa.Value, id
 	if s == nil || n.Obj().Pkg() != x.P.Types || idx >= s.NumFields() {
 		return
 	}
-	x.L.Event(x, st, &Event{Kind: EvAccess, Instr: at, Struct: n, Field: s.Field(idx), Write: write, Tags: x.tagsOf(st, base), BaseNil: st.factOf(base).Nil})
+	ev := &Event{Kind: EvAccess, Instr: at, Struct: n, Field: s.Field(idx), Write: write, Tags: x.tagsOf(st, base), BaseNil: st.factOf(base).Nil}
+	if sto, ok := at.(*ssa.Store); ok && write {
+		ev.VTags = x.tagsOf(st, sto.Val)
+	}
+	x.L.Event(x, st, ev)
 }
 
 // accessOfLoadedContainer: element access on a slice/map that was loaded from a guarded field.
@@ -536,6 +540,9 @@ func (x *Explorer) stepStore(st *State, v *ssa.Store) {
 	case *ssa.IndexAddr:
 		bt := x.tagsOf(st, ad.X)
 		x.accessOfLoadedContainer(st, v, ad.X, true)
+		if _, isSlice := ad.X.Type().Underlying().(*types.Slice); isSlice {
+			x.L.Event(x, st, &Event{Kind: EvAliasWrite, Instr: v, Tags: bt})
+		}
 		if n, f, _ := loadedField(ad.X); n == a.FieldIndex && f == a.FIIndex {
 			x.emit(st, &Event{Kind: EvEffect, Eff: x.subject3(bt, EIdxWLive, EIdxWTemp, EIdxWUnk), Instr: v, Tags: bt, VTags: vt, Struct: n, Field: f})
 		} else if sl, ok := ad.X.Type().Underlying().(*types.Slice); ok && named(sl.Elem()) == a.IndexedField && bt&TLive != 0 {
